@@ -296,6 +296,25 @@ def uniqOracle (m : St) (obs : List Obs) : Option (String × String) :=
 
 def findObs (obs : List Obs) (i : Nat) : Option Obs := obs.find? (·.id == i)
 
+/-- C08 (round 8): "a BytesMut that is empty and is the only handle on its allocation can always take the whole allocation back:
+try_reclaim(n) returns true for every n up to the allocation size".  Fires only where the implementation answered `false`, the
+(proved: reclaim_whole) model answers `true`, the handle was empty before the call, no other live handle has an address inside the
+same allocation, and n is at most the allocation's size as the allocator reports it. -/
+def reclaimSoleOracle (pre : List Obs) (op : Op) (out mout : Outc) : Option (String × String) :=
+  match op, out, mout with
+  | .tryReclaim i n, .ok (.bool false), .ok (.bool true) =>
+    match findObs pre i with
+    | some o =>
+      (match o.blk with
+       | some (ser, _, size) =>
+         let others := pre.filter fun p => p.id != i && (p.wild || (match p.blk with | some (s2, _, _) => s2 == ser | none => false))
+         if o.kind == .mut && o.len == 0 && others.isEmpty && n ≤ size then
+           some ("C08", s!"try_reclaim({n}) = false on an empty BytesMut that is the only handle on its {size}-byte allocation")
+         else none
+       | none => none)
+    | none => none
+  | _, _, _ => none
+
 /-- C08: `try_into_mut` succeeds exactly when `is_unique`, as the implementation itself answered it
 on the same handle just before the call, is true -/
 def tryMutOracle (op : Op) (out : Outc) (pre : List Obs) : Option (String × String) :=
@@ -454,7 +473,15 @@ def judgeBlock (s : JS) : IO JS := do
     (spec'.zipIdx).filterMap fun (oh, i) => oh.map fun h => (i, h.kind, contentsStr h.val, h.val.length)
   let implObs := b.obs.map fun o => (o.id, o.kind, o.contents, o.len)
   if specObs != implObs then
-    emit s true s!"oracle-fail C01 op={opw.headD "?"} what=handles_differ_from_the_independent-Vec_reference_model"
+    -- after a panicking call this is also "after the panic every handle still has its previous contents and length" (C13);
+    -- for the Vec / BytesMut an owner-backed view was just converted into it is also "the owner is not dropped before the last
+    -- view is gone, also when a view is converted into Vec<u8> or BytesMut" (C03): the instrumented owners scrub their memory on drop
+    let ownerConv := match op, s.model with
+      | .intoVec i, some m | .intoMut i, some m | .tryIntoMut i, some m =>
+        (match m.hs[i]? with | some (some (.bytes (.owned _) _ _ _)) => true | _ => false)
+      | _, _ => false
+    let tag := "C01" ++ (if out == Outc.panic then "+C13" else "") ++ (if ownerConv then "+C03" else "")
+    emit s true s!"oracle-fail {tag} op={opw.headD "?"} what=handles_differ_from_the_independent-Vec_reference_model"
   else
   match (match mustPanic op s.prev with
          | some true => if out != Outc.panic then some ("C13", "out-of-contract arguments did not panic (silent result)") else none
@@ -497,6 +524,9 @@ def judgeBlock (s : JS) : IO JS := do
     if !wfB m' then
       emit s false s!"model-diff SEQ op={opw.headD "?"} invariant WF-does-not-hold-on-the-model-state"
     else if mout != out then
+      match reclaimSoleOracle s.prev op out mout with
+      | some (p, msg) => emit s true s!"oracle-fail {p} op={opw.headD "?"} what={msg.replace " " "_"}"
+      | none =>
       emit s false s!"model-diff SEQ op={opw.headD "?"} impl={(reprStr out).replace " " "_"} model={(reprStr mout).replace " " "_"}"
     else
       let mo := modelObs m'
